@@ -119,6 +119,7 @@ def run(lines, out, args):
 
     def candidate(elems, cls_mode, declared_for, on_instance=False):
         body = {}
+        parent_body = {}
         inst_attrs = {}
         for n, d, c in elems:
             name = "m" + n
@@ -134,6 +135,9 @@ def run(lines, out, args):
             elif c[0] == "T":
                 # a @staticmethod in the class body: no self, whether it is reached through the class or an instance
                 body[name] = staticmethod(mkfunc(name, psig(c[1:]), False))
+            elif c[0] == "J":
+                # ... and one INHERITED from a base class of the candidate class
+                parent_body[name] = staticmethod(mkfunc(name, psig(c[1:]), False))
             elif c[0] == "F":
                 inst_attrs[name] = mkfunc(name, psig(c[1:]), False)
             elif c == "B":
@@ -148,12 +152,12 @@ def run(lines, out, args):
         if on_instance and declared_for is not None and not cls_mode:
             # an instance without __dict__ (slots incl. __provides__), the class declares something else, the verified
             # interface is declared on the instance only
-            C = type("C", (), dict(body, __slots__=("__provides__",) + tuple(inst_attrs)))
+            C = type("C", (type("P", (), dict(parent_body, __slots__=())),) if parent_body else (), dict(body, __slots__=("__provides__",) + tuple(inst_attrs)))
             classImplements(C, IOther)
             ob = C()
             directlyProvides(ob, declared_for)
         else:
-            C = type("C", (), body)
+            C = type("C", (type("P", (), parent_body),) if parent_body else (), body)
             if declared_for is not None:
                 classImplements(C, declared_for)
             ob = C()
@@ -185,7 +189,7 @@ def run(lines, out, args):
             if d == "A":
                 continue
             attr = getattr(probe, name)
-            if c[0] in "FGHDT":
+            if c[0] in "FGHDTJ":
                 target = attr if not cls_mode else getattr(C(), name)
                 s = inspect.signature(target)
                 impl_pos = len([p for p in s.parameters.values() if p.kind in (p.POSITIONAL_ONLY, p.POSITIONAL_OR_KEYWORD)])
